@@ -1,7 +1,7 @@
 (** Property C07 — 1-D MOC serialisation round-trips.  Statements only. *)
 From Coq Require Import List NArith Permutation Sorted.
 From MOC.Base Require Import RangeSet.
-From MOC.Model Require Import Qty Query Build Repr Serial CellsSM Adapters AsciiCodec AsciiProofs AsciiStreamProofs AsciiMoc FitsCodec FitsProofs FitsStProofs.
+From MOC.Model Require Import Qty Query Build Repr Serial CellsSM Adapters AsciiCodec AsciiProofs AsciiStreamProofs AsciiMoc FitsCodec FitsProofs FitsStProofs JsonCodec JsonProofs JsonMoc.
 Import ListNotations.
 Open Scope N_scope.
 
@@ -155,6 +155,54 @@ Proof.
   - repeat constructor; vm_compute; reflexivity.
 Qed.
 
+(** ---------- JSON (src/deser/json.rs), character level ---------- *)
+(** the lexer of the JSON subset on ANY rendering of a token list (arbitrary JSON white space between the
+    tokens, strings without escapes, numbers below 2^64 followed by ',' or ']') gives back the tokens *)
+Theorem C07_json_lexer_on_renderings : forall l, JWF l -> forall acc,
+  jlex LIdle (jrender l) acc = Some (acc ++ jtoks_of l).
+Proof. exact jlex_render. Qed.
+
+(** the pushdown parser on the tokens of ANY value tree (arrays and objects nested at any depth) gives
+    back the tree *)
+Theorem C07_json_parser_inverts_tokens : forall v, prun PVal [] (toks v) = Some v.
+Proof. exact prun_tree. Qed.
+
+(** writer then reader, on ANY list of pairwise disjoint cells of depth <= dmax inside their domain,
+    for EVERY fold width and every white-space prefix: the document is inside the subset, is accepted,
+    and decodes to dmax and the cells (bucketed by depth, a permutation, then sorted by the reader) *)
+Theorem C07_json_roundtrip : forall (sortf : qty -> list aelem -> list aelem),
+  (forall q l, Permutation (sortf q l) l) ->
+  forall q w dmax fold prefix cells,
+  okw w -> allws prefix -> dmax <= max_depth q w ->
+  Forall (elem_wf q dmax) (map of_cell cells) -> Disj q w (map of_cell cells) ->
+  from_json sortf q w (to_json dmax fold prefix cells)
+  = JRRes (AOk (dmax, sortf q (regroup dmax (map of_cell cells)))).
+Proof. exact json_roundtrip. Qed.
+
+(** the whole chain for a MOC: cells (normal form) -> to_json_aladin -> from_json_aladin -> ranges()
+    gives back the depth and the ranges of every valid MOC *)
+Theorem C07_json_moc_roundtrip : forall (sortf : qty -> list aelem -> list aelem),
+  (forall q l, Permutation (sortf q l) l) ->
+  (forall q l, Sorted (fun a b => flat_leb q a b = true) (sortf q l)) ->
+  forall q w d l cells fold prefix, okw w -> allws prefix -> d <= max_depth q w -> Canon l -> NormalCells q w d l cells ->
+  exists l', from_json sortf q w (to_json d fold prefix cells) = JRRes (AOk (d, l')) /\
+             ranges_of_elems q w l' = l.
+Proof. exact json_cells_roundtrip. Qed.
+
+Example C07_json_nonvacuous :
+  let cells := [(2, 3); (1, 1); (1, 2); (2, 20); (3, 100)] in
+  Forall (elem_wf Hpx 4) (map of_cell cells) /\ Disj Hpx 64 (map of_cell cells) /\
+  from_json isort_e Hpx 64 (to_json 4 (Some 8) [] cells)
+  = JRRes (AOk (4, [ECell 2 3; ECell 1 1; ECell 1 2; ECell 2 20; ECell 3 100])) /\
+  to_json 4 None [] [(1, 1); (1, 2)] = [123; 10; 32; 32; 34; 49; 34; 58; 32; 91; 49; 44; 32; 50; 93; 44; 10; 32; 32; 34; 52; 34; 58; 32; 91; 93; 10; 125] /\
+  jparse [123; 34; 48; 34; 58; 91; 48; 49; 93; 125] = JOut /\          (* {"0":[01]} : outside the subset *)
+  jparse [123; 34; 48; 34; 58; 91; 49; 44; 93; 125] = JReject.        (* {"0":[1,]} : not JSON *)
+Proof.
+  split; [|split; [|split; [|split; [|split]]]]; try (vm_compute; reflexivity).
+  - repeat (constructor || split); vm_compute; try reflexivity; try discriminate.
+  - repeat constructor; vm_compute; reflexivity.
+Qed.
+
 Print Assumptions C07_fits_rows_roundtrip.
 Print Assumptions C07_big_endian_roundtrip.
 Print Assumptions C07_fits_declared_size.
@@ -177,3 +225,7 @@ Print Assumptions C07_fits_file_blocks.
 Print Assumptions C07_fits_naxis2_card.
 Print Assumptions C07_fits_nuniq_file_roundtrip.
 Print Assumptions C07_fits_nuniq_cells_back.
+Print Assumptions C07_json_lexer_on_renderings.
+Print Assumptions C07_json_parser_inverts_tokens.
+Print Assumptions C07_json_roundtrip.
+Print Assumptions C07_json_moc_roundtrip.
